@@ -22,8 +22,8 @@ CHECKS = {
          "Decides that the two analysis goroutines share no written location (sound under the over-approximating field-based abstraction), that the spawner joins before touching their results, that no package-level state is written at run time and that no source of run-to-run variation (map iteration, select, clock, randomness, environment, pointer formatting) is reachable from Compile, the builder API or main. These are the structural conditions that make generation a pure function; byte-identity itself is not observed.",
          "DESIGN.md §4 C09",
          "Trusts go/ssa and the library effect table (effects.go); assumes text/template, go/parser and go/printer are deterministic; object-insensitive: may over-report, cannot under-report for the stated obligations."),
- "C12": ("template instantiation under all 2^5 boolean valuations (text/template/parse walk) + go/ssa: interprocedural write sets of Init's closures vs must-assignment in reset; path simulation of the sentinel; AST bound check of token-buffer reads; abstract evaluation (E5) of Init's closures by the Go-subset interpreter on scripted parses of a used versus a fresh instance",
-         "Decides that every per-parse variable any closure can write is re-initialised by reset on every path from state-independent values, that the one exception (token buffer) is never read beyond tokenIndex, that reset re-derives buffer and sentinel from Buffer, that parse republishes the token buffer and Size only affects capacity, and that no offset is narrowed. Sufficient structural conditions for 'Reset+Parse = fresh parser'. In addition R-reuse-semantics evaluates Init/reset/parse/add on 11 input pairs (long then short, success and failure, a backtracked branch that wrote more tokens, the empty input; Size option absent/0/1/2/64) and compares every closure variable after Reset and verdict, published tokens, error token after Parse with a fresh instance and with the definition.",
+ "C12": ("template instantiation under all 2^5 boolean valuations (text/template/parse walk) + go/ssa: interprocedural write sets of Init's closures vs must-assignment in reset; path simulation of the sentinel; AST bound check of token-buffer reads; unification of the U-typed variables, fields and parameters into flow classes (R-U-offsets); abstract evaluation (E5) of Init's closures by the Go-subset interpreter on scripted parses of a used versus a fresh instance",
+         "Decides that every per-parse variable any closure can write is re-initialised by reset on every path from state-independent values, that the one exception (token buffer) is never read beyond tokenIndex, that reset re-derives buffer and sentinel from Buffer, that parse republishes the token buffer and Size only affects capacity, that no offset is narrowed, and that every stepped quantity of the offset type U belongs to the cursor's class (no derivation-sized counter is kept in U, so the result does not depend on U while the input fits it). Sufficient structural conditions for 'Reset+Parse = fresh parser'. In addition R-reuse-semantics evaluates Init/reset/parse/add on 11 input pairs (long then short, success and failure, a backtracked branch that wrote more tokens, the empty input; Size option absent/0/1/2/64) and compares every closure variable after Reset and verdict, published tokens, error token after Parse with a fresh instance and with the definition.",
          "DESIGN.md §4 C12",
          "Trusts text/template/parse, go/types, go/ssa and the instantiator's model data (names only); the emitted rule functions are represented by a synthetic rule function here and by E1/E2 output in C01/C08."),
  "C14": ("store/address-of search over go/ssa of every template instantiation and peg.peg.go; type-shape check of package-level variables",
@@ -34,8 +34,8 @@ CHECKS = {
          "Decides the structural conditions that make a memo hit equal to a re-run (key = (rule, begin); verdict and tokens stored faithfully; tokens copied; replay splices/advances/sets position in order; furthest-error token only moves strictly forward so replays cannot change it; memoisation can be switched off; table re-made by reset). With deterministic rules these are sufficient; the wrapper half is decided by E2. In addition R-memo-semantics evaluates the closures on 300+ scenarios (rule start, earlier tokens, five rule bodies incl. empty matches, four intervening branches that overwrite/extend the token buffer, success and failure) and compares position, tokenIndex, the live tokens and the furthest token after a memo hit with those after re-running the rule.",
          "DESIGN.md §4 C06",
          "Trusts go/ssa and the template instantiator; assumes no side-effecting predicates (excluded by the property)."),
- "C11": ("go/ssa rules on parse/add/memoizedResult/translatePositions/Error of every template instantiation and peg.peg.go (dominance of return-nil by the entry rule's success, dominance of maxToken stores by the strict-further and non-empty tests, cursor invariant of translatePositions decided with a ==/!= union-find over dominating branch facts, whole-buffer argument rule, no-string-indexing rule) plus abstract evaluation (E5) of the instantiated source of translatePositions and parseError.Error by the Go-subset interpreter on every short text over {newline, other, multi-byte, quote} and every token begin ≤ end ≤ len",
-         "Decides verdict mapping, the furthest-first-token rule, that both offsets of the error are translated, and — for every text up to the evaluated length, hence by order-invariance of the code (runes are only compared with newline, offsets with each other) for the patterns they represent — that the message carries the definitional 1-based line/column of both ends, quotes exactly the runes between them and is produced without a panic, empty input and end-of-input included. Bounded in text length.",
+ "C11": ("go/ssa rules on parse/add/memoizedResult/translatePositions/Error of every template instantiation and peg.peg.go (dominance of return-nil by the entry rule's success, dominance of maxToken stores by the strict-further and non-empty tests, cursor invariant of translatePositions decided with a ==/!= union-find over dominating branch facts, whole-buffer argument rule, no-string-indexing rule) plus abstract evaluation (E5) of the instantiated source of translatePositions and parseError.Error by the Go-subset interpreter on every short text over {newline, other, multi-byte, quote} and every token begin ≤ end ≤ len; evaluation of parse/reset/Error on histories of one parser (R-error-stable)",
+         "Decides verdict mapping, the furthest-first-token rule, that both offsets of the error are translated, and — for every text up to the evaluated length, hence by order-invariance of the code (runes are only compared with newline, offsets with each other) for the patterns they represent — that the message carries the definitional 1-based line/column of both ends, quotes exactly the runes between them and is produced without a panic, empty input and end-of-input included; and that an error value kept while its parser goes on to a shorter, longer or empty input gives the same message afterwards (twelve histories). Bounded in text length.",
          "DESIGN.md §4 C11",
          "Trusts go/ssa, the fact engine in pathfacts.go, the template instantiator and the interpreter; assumes C13's in-bounds invariant."),
  "C05": ("abstract evaluation (E5) of the instantiated source of tokens.AST and node.Print by the Go-subset interpreter on the post-order token list of every derivation shape up to a node bound; go/ssa call-routing and value-shape rules on the printers of every AST-enabled template instantiation and peg.peg.go",
@@ -58,8 +58,8 @@ CHECKS = {
          "Decides that the position/label skeleton of every operator template and of the rule wrapper is independent of the AST switch (plain and -inline), that under -noast an action's code runs exactly once where the token would be added and a capture assigns text from the entry snapshot to the current position, and that all -noast runtime configurations compile.",
          "DESIGN.md §4 C07",
          "Assumptions of C01; -switch combinations are judged by C02."),
- "C08": ("type-checking every operator-template instantiation (E1 text spliced behind the E3 runtime) under {AST,-noast}×{plain,-inline} incl. lexical-context representatives and a 300-rule model; dry/real label-parity observation; evaluation of the rule-type thresholds; SSA dedup rule on t.Imports; constant rule on the gofmt printer configuration",
-         "Decides validity of the templates from which every output is assembled: all instantiations parse and type-check, labels marked in the dry pass equal those jumped to in the real pass, rule ids never need the type parameter, the rule constant type has exact thresholds, imports are de-duplicated, and the result is printed with gofmt's configuration. One recorded finding (predicate ending in a line comment).",
+ "C08": ("type-checking every operator-template instantiation (E1 text spliced behind the E3 runtime) under {AST,-noast}×{plain,-inline} incl. lexical-context representatives and a 300-rule model; dry/real label-parity observation; evaluation of the rule-type thresholds; SSA dedup rule on t.Imports; constant rule on the gofmt printer configuration (go/format, or the printer mode with number normalisation); whole-Compile evaluation (builder calls → first pass → link → analyses → -inline/-switch → template → emission) of hostile grammars, imports and command lines under the 8 option sets, type-checked",
+         "Decides validity of the templates from which every output is assembled: all instantiations parse and type-check, labels marked in the dry pass equal those jumped to in the real pass, rule ids never need the type parameter, the rule constant type has exact thresholds, imports are de-duplicated, and the result is printed with gofmt's full configuration; grammars that spell comment ends and format verbs in literals, lay user code out over several lines, never read the input, import packages under their own name, or come from a command line with a line end, taken through the whole of Compile, type-check (R-whole-compile).",
          "DESIGN.md §4 C08",
          "Trusts go/parser, go/types, go/printer; excludes invalid user Go and reserved identifiers as the property does."),
  "C13": ("E2 guardedness flags (every position++ preceded on its path by a successful test excluding endSymbol) on the model suite under default/-noast/-inline; go/ssa dominance rules on matchDot/matchString; path simulation of reset's sentinel, backed by small-scope evaluation of Init/reset on inputs with NUL, astral runes and adjacent invalid bytes (R-buffer-semantics); evaluation of matchDot/matchString at every position incl. the end symbol; index-site and no-string-indexing rules",
